@@ -22,7 +22,7 @@ import fnmatch, io, struct, sys, traceback
 from collections import deque
 
 from mc import env
-from mc.engine import pmap
+from mc.engine import pmap, split
 from mc.report import Report
 from mc.refs import ofwire as W
 from mc.refs import ofwire_s2c as S
@@ -64,6 +64,9 @@ class MonBudget (object):
     cls.count += 1
     if cls.count > cls.budget:
       cls.tripped = True
+      # never raise inside a helper generator (libopenflow's module-level xid generator would be
+      # finished for the rest of the process); the I/O loop generators themselves are fair game
+      if code.co_flags & 0x20 and code.co_name != "run": return None
       raise BudgetExceeded()
 
   @classmethod
@@ -108,13 +111,15 @@ def site_of (et, tb):
 
 class RecLog (object):
   """Stands in for a module / instance logger: keeps the exceptions that pox logs and swallows."""
-  def __init__ (self): self.exc = []
+  def __init__ (self, hook=None): self.exc = []; self.hook = hook
   def _n (self, *a, **k): pass
   debug = info = warning = warn = error = critical = log = _n
   def exception (self, *a, **k):
     et, ev, tb = sys.exc_info()
     if et is not None and et is not BudgetExceeded and et is not GeneratorExit:
-      self.exc.append(site_of(et, tb))
+      so = site_of(et, tb)
+      self.exc.append(so)
+      if self.hook is not None: self.hook(so, tb)
   def isEnabledFor (self, lvl): return False
 
 
@@ -197,10 +202,10 @@ class World (object):
       if not self.settle(): return False
     return True
 
-  def record (self, i, msg):
+  def record (self, i, msg, cls=""):
     try: raw = msg.pack()
     except Exception: raw = None
-    self.deliv[i].append(dict(raw=raw, cls=type(msg).__name__, closed=self.is_closed(i)))
+    self.deliv[i].append(dict(raw=raw, cls=cls + type(msg).__name__, closed=self.is_closed(i)))
 
   def errors_sent (self, i):
     out = []
@@ -261,7 +266,7 @@ class CtlWorld (World):
     self.core.running = True
     self.lst = FakeListener()
     of01.socket = FakeSocketModule(self.lst)
-    self.log = RecLog(); of01.log = self.log; self.logs.append(self.log)
+    self.log = self.looplog = RecLog(self._on_logged); of01.log = self.log; self.logs.append(self.log)
     if not getattr(of01, "_c10_wrapped", False):
       hs = of01._default_handlers.handlers
       for k, h in enumerate(hs): hs[k] = _mk_rec(h)
@@ -273,6 +278,15 @@ class CtlWorld (World):
     self.g = task.run()
     self.socks = [env.ScriptSock(("switch", 100 + i)) for i in range(3)]
     self.cons = []
+
+  def _on_logged (self, so, tb):
+    # Connection.read unpacked a message and found no handler for its type (the handshake table is
+    # shorter than the type range): the message was accepted, count it as dispatched
+    if so[0] == "of_01.py:read:IndexError" and "handlers[" in (traceback.extract_tb(tb)[-1].line or ""):
+      while tb.tb_next is not None: tb = tb.tb_next
+      loc = tb.tb_frame.f_locals
+      con, msg = loc.get("self"), loc.get("msg")
+      if con in self.cons and msg is not None: self.record(self.cons.index(con), msg, cls="unhandled:")
 
   def connect_all (self):
     for s in self.socks:
@@ -298,7 +312,7 @@ class CtlWorld (World):
     return r, []
 
   def is_closed (self, i):
-    return bool(self.cons[i].disconnected or self.socks[i].closed)
+    return bool(self.socks[i].closed or (i < len(self.cons) and self.cons[i].disconnected))
 
   def selecting (self):
     """Indices of connections in the current Select's read list (+ 'L' for the listener)."""
@@ -330,7 +344,7 @@ class SwWorld (World):
     import pox.datapaths.switch as swm
     self.iow = iow
     iow.makePinger = env.FakePinger
-    self.iolog = RecLog(); iow.log = self.iolog; self.logs.append(self.iolog)
+    self.iolog = self.looplog = RecLog(); iow.log = self.iolog; self.logs.append(self.iolog)
     self.loop = iow.RecocoIOLoop()
     self.socks = []; self.workers = []; self.conns = []; self.sws = []
     for i in range(3):
@@ -523,51 +537,70 @@ def execute (case, insts, alt_from=None):
   return w
 
 
+def tname (t):
+  return W.TYPE_NAMES[t] if t < len(W.TYPE_NAMES) else "unknown-type"
+
+
 def judge (case, insts, w, differential=True):
-  """Returns (list of (clause, symptom, via, site, text)), summary for the outcome digest)."""
-  side = case["side"]
+  """Returns (list of (key, text), summary for the outcome digest).
+
+  Keys: C10:<clause>:<side>:<symptom>:<subject>.  The subject of a verdict about one framed unit of the
+  hostile stream is that unit's declared type plus the rule of the reference validator it breaks
+  (independent of which corruption produced it); loop deaths are keyed by the route the exception took
+  out of read() (the containment hole), other verdicts by message class + corrupted field class of
+  the case."""
+  side = case["side"]; inst = insts[case["inst"]]
+  mc, fc = msg_class(case, inst), field_class(case, inst)
   bad = []
-  def v (clause, symptom, text, via=None, site=None):
-    bad.append((clause, symptom, via, site, text))
+  def v (clause, symptom, subject, text):
+    key = ":".join([PID, clause, side, symptom] + [x for x in subject if x])
+    if not any(k == key for k, _ in bad): bad.append((key, text))
   h = HOSTILE
-  # (1) termination
-  if w.tripped:
-    v("1", "nonterminating", "a step into the %s exceeded %d lines" % ("OpenFlow_01_Task.run" if side == "ctl" else "RecocoIOLoop.run", BUDGET))
-    return bad, ("tripped",)
-  if w.livelock:
-    v("1", "livelock", "the loop needed more than %d select rounds to consume one scripted step" % MAXIT)
-    return bad, ("livelock",)
-  # (2) loop alive
-  if w.dead:
-    site, via = (w.dead_site or (None, None))
-    if site is None:
-      lg = w.logged()
-      if lg: site, via = lg[-1]
-    v("2", "loop-died", "the I/O loop generator ended (%s)%s" % (w.dead, " after %s" % site if site else ""), via=via, site=site)
-    return bad, ("dead", site)
-  for i in (0, 2):
-    if i not in w.final_sel:
-      v("2", "sibling-dropped-from-select", "sibling connection %d is no longer in the loop's read list" % i)
-  if side == "ctl" and "L" not in w.final_sel:
-    v("2", "listener-dropped-from-select", "the listening socket is no longer selected on")
-  # (3) siblings
-  for i in (0, 2):
-    exp = [p.data for p in w.pushed[i]]
-    got = [d["raw"] for d in w.deliv[i]]
-    if w.closed[i]:
-      v("3", "sibling-closed", "sibling connection %d was closed" % i)
-    elif got != exp:
-      k = next((k for k in range(min(len(got), len(exp))) if got[k] != exp[k]), min(len(got), len(exp)))
-      v("3", "sibling-messages-differ", "sibling %d: sent %d messages, delivered %d; first difference at #%d" % (i, len(exp), len(got), k))
-    if any(d["closed"] for d in w.deliv[i]):
-      v("5", "delivered-after-close", "sibling %d got a message delivered after it was closed" % i)
-  # (4)/(5) hostile connection
+  # reference view of the hostile byte stream
   stream = b""; valid_at = {}
   for chunk in w.pushed[h]:
     for p in (chunk.parts or [chunk]):
       if p.valid: valid_at[len(stream)] = p.data
       stream += p.data
   units, tail, why = R.frame(stream)
+  def is_valid (k): return valid_at.get(units[k][0]) == units[k][1]
+  lname = "OpenFlow_01_Task.run" if side == "ctl" else "RecocoIOLoop.run"
+  # (1) termination
+  if w.tripped or w.livelock:
+    subj = [tname(tail[1]), "hdr.length<8"] if why == "unframeable" else [mc, fc]
+    if w.tripped:
+      v("1", "nonterminating", subj, "a step into %s exceeded %d lines" % (lname, BUDGET))
+    else:
+      v("1", "livelock", subj, "%s needed more than %d select rounds to consume one scripted step" % (lname, MAXIT))
+    return bad, ("tripped" if w.tripped else "livelock",)
+  # (2) loop alive
+  if w.dead:
+    site, via = (w.dead_site or (None, None))
+    if site is None and w.looplog.exc:
+      site, via = w.looplog.exc[-1]
+    if via == "read>unpack_new": subj = ["via=" + via]
+    elif via: subj = ["via=" + via, site]
+    else: subj = [mc, fc, site]
+    v("2", "loop-died", subj, "the generator of %s ended (%s)%s: no connection is served any more"
+      % (lname, w.dead, " after %s" % site if site else ""))
+    return bad, ("dead", site)
+  for i in (0, 2):
+    if i not in w.final_sel:
+      v("2", "sibling-dropped-from-select", [mc, fc], "sibling connection %d is no longer in the loop's read list" % i)
+  if side == "ctl" and "L" not in w.final_sel:
+    v("2", "listener-dropped-from-select", [mc, fc], "the listening socket is no longer selected on")
+  # (3) siblings
+  for i in (0, 2):
+    exp = [p.data for p in w.pushed[i]]
+    got = [d["raw"] for d in w.deliv[i]]
+    if w.closed[i]:
+      v("3", "sibling-closed", [mc, fc], "sibling connection %d was closed" % i)
+    elif got != exp:
+      k = next((k for k in range(min(len(got), len(exp))) if got[k] != exp[k]), min(len(got), len(exp)))
+      v("3", "sibling-messages-differ", [mc, fc], "sibling %d: sent %d messages, delivered %d; first difference at #%d" % (i, len(exp), len(got), k))
+    if any(d["closed"] for d in w.deliv[i]):
+      v("5", "delivered-after-close", [mc, fc], "sibling %d got a message delivered after it was closed" % i)
+  # (4)/(5) hostile connection
   D = w.deliv[h]; E = w.errs[h]; closed = w.closed[h]
   acted = {}                     # unit index -> set of 'd' (delivered) 'x' (inexact) 'e' (error)
   inexact = []
@@ -578,8 +611,7 @@ def judge (case, insts, w, differential=True):
     if raw is not None:
       k = next((k for k in range(j, len(units)) if raw == units[k][1]), None)
       if k is None:
-        k = next((k for k in range(j, len(units)) if units[k][0] in valid_at and valid_at[units[k][0]] == units[k][1]
-                  and raw[1] == units[k][1][1] and raw[4:8] == units[k][1][4:8]), None)
+        k = next((k for k in range(j, len(units)) if is_valid(k) and raw[1] == units[k][1][1] and raw[4:8] == units[k][1][4:8]), None)
     if k is not None:
       acted.setdefault(k, set()).add("d"); j = k + 1
     elif j < len(units):
@@ -593,37 +625,41 @@ def judge (case, insts, w, differential=True):
       if xid_of(u) == x or (len(data) >= 8 and u.startswith(data[:8])):
         acted.setdefault(k, set()).add("e"); break
   if any(d["closed"] for d in D):
-    v("5", "delivered-after-close", "a message was delivered from the hostile connection after it had been closed")
+    v("5", "delivered-after-close", [mc, fc], "a message was delivered from the hostile connection after it had been closed")
   last = max(acted) if acted else -1
-  horizon = len(units) if not closed else last + 1      # units beyond are excused by the close
-  suspects = [k for k in range(len(units)) if not (units[k][0] in valid_at and valid_at[units[k][0]] == units[k][1])]
+  horizon = len(units) if not closed else last + 1      # later units are excused by the close
+  suspects = [k for k in range(len(units)) if not is_valid(k)]
   for k in range(min(horizon, len(units))):
     off_k, u = units[k]
     a = acted.get(k, set())
-    if off_k in valid_at and valid_at[off_k] == u:
+    if is_valid(k):
       if "d" not in a:
-        v("4", "valid-not-delivered", "valid message #%d (%s, xid %#x) on the hostile connection was not delivered although the connection %s"
-          % (k, W.TYPE_NAMES[u[1]], xid_of(u), "stayed open" if not closed else "was closed only later"))
+        v("4", "valid-not-delivered", [mc, fc], "valid message #%d (%s, xid %#x) on the hostile connection was not delivered although the connection %s"
+          % (k, tname(u[1]), xid_of(u), "stayed open" if not closed else "was closed only later"))
       continue
-    wf = R.wellformed(u)
+    wf, reason = R.classify(u)
     if wf == "bad":
       if "d" in a or "x" in a:
-        v("4", "malformed-delivered", "malformed unit #%d (declared type %d, length %d) was delivered as %s" %
-          (k, u[1], len(u), ",".join(sorted(set(D[di]["cls"] for di, jj in inexact if jj == k))) or "a message"))
+        cl = ",".join(sorted(set(D[di]["cls"] for di, jj in inexact if jj == k))) or "a message"
+        v("4", "malformed-delivered", [tname(u[1]), reason], "malformed unit #%d (declared type %d, length %d: %s) was delivered as %s" % (k, u[1], len(u), reason, cl))
       elif "e" not in a:
-        v("4", "malformed-ignored", "malformed unit #%d (declared type %d, length %d) was neither answered with an error nor did it close the connection" % (k, u[1], len(u)))
+        v("4", "malformed-ignored", [tname(u[1]), reason], "malformed unit #%d (declared type %d, length %d: %s) was neither answered with an error nor did it close the connection" % (k, u[1], len(u), reason))
+  beyond = [D[di]["cls"] for (di, jj) in inexact if jj is None]
   if closed:
     cause = [k for k in suspects if k <= last + 1]
     if not cause and why != "unframeable" and not w.eof_pushed[h]:
-      v("4", "closed-without-cause", "the hostile connection was closed while only valid messages had been received")
+      v("4", "closed-without-cause", [mc, fc], "the hostile connection was closed while only valid messages had been received")
   else:
     if why == "unframeable":
-      v("4", "unframeable-not-closed", "a header with length %d < 8 was received and the connection stayed open" % struct.unpack_from("!H", tail, 2)[0])
+      v("4", "unframeable-accepted", [tname(tail[1])], "a %s header with length %d < 8 was received and the connection stayed open%s"
+        % (tname(tail[1]), struct.unpack_from("!H", tail, 2)[0], " (and %d message(s) were delivered from the bytes behind it)" % len(beyond) if beyond else ""))
     if w.eof_pushed[h]:
-      v("4", "eof-not-closed", "the peer closed the connection and it is still open / selected on")
-  for (di, jj) in inexact:
-    if jj is None:
-      v("4", "delivered-from-unframeable-bytes", "a %s was delivered from bytes that follow no complete declared unit" % D[di]["cls"])
+      v("4", "eof-not-closed", [mc, fc], "the peer closed the connection and it is still open")
+  if beyond and why != "unframeable":
+    v("4", "delivered-from-incomplete-unit", [beyond[0]], "a %s was delivered although fewer bytes than its declared length had arrived" % beyond[0])
+  if beyond and why == "unframeable" and closed:
+    v("4", "unframeable-accepted", [tname(tail[1])], "%d message(s) were delivered from bytes behind a %s header with length %d < 8"
+      % (len(beyond), tname(tail[1]), struct.unpack_from("!H", tail, 2)[0]))
   # non-interference: a delivered object that is not a slice of its unit must not depend on later bytes
   if differential:
     for (di, jj) in inexact:
@@ -637,11 +673,11 @@ def judge (case, insts, w, differential=True):
       o1 = (D[di]["cls"], raw)
       o2 = (D2[di]["cls"], D2[di]["raw"]) if di < len(D2) else None
       if o1 != o2:
-        v("4", "built-from-two-messages", "the %s delivered for unit #%d (declared length %d) changes when only the bytes AFTER that unit change: decoding read beyond the declared length"
+        v("4", "built-from-two-messages", [D[di]["cls"]], "the %s delivered for unit #%d (declared length %d) changes when only the bytes AFTER that unit change: decoding read beyond the declared length"
           % (D[di]["cls"], jj, len(u)))
       break
   summ = (tuple((d["cls"], d["closed"]) for d in D), len(E), closed, why, len(units),
-          tuple(sorted(set(w.logged()))), tuple(len(w.deliv[i]) for i in (0, 2)))
+          tuple(sorted(set(w.logged()), key=repr)), tuple(len(w.deliv[i]) for i in (0, 2)))
   return bad, summ
 
 
@@ -651,18 +687,8 @@ def _execute_and_judge (case, insts):
   return w, bad, summ
 
 
-def key_of (case, inst, b):
-  clause, symptom, via, site, text = b
-  parts = [PID, clause, case["side"], symptom]
-  if via: parts.append("via=" + via)
-  parts.append(msg_class(case, inst))
-  parts.append(field_class(case, inst))
-  if site: parts.append(site)
-  return ":".join(parts)
-
-
 def explains (known_key, key):
-  """Known keys may use shell wildcards, e.g. C10:2:sw:loop-died:via=read>unpack_new:*"""
+  """Known keys may use shell wildcards, e.g. C10:4:*:malformed-delivered:VENDOR:*"""
   return known_key == key or fnmatch.fnmatchcase(key, known_key)
 
 
@@ -716,12 +742,11 @@ def cases_for (side, ii, inst, group, quick):
   return out
 
 
-def _worker (item):
-  side, ii, group, quick = item
+def _worker (cases):
   insts = R.catalogue()
   rep = Report(PID, "model_checking")
-  inst = insts[ii]
-  for case in cases_for(side, ii, inst, group, quick):
+  for case in cases:
+    side = case["side"]; inst = insts[case["inst"]]
     try:
       w, bad, summ = _execute_and_judge(case, insts)
     except Exception as e:
@@ -730,11 +755,11 @@ def _worker (item):
     rep.evaluations += 1
     rep.transitions += w.nsend
     fc = field_class(case, inst)
-    rep.outcome((side, msg_class(case, inst), fc, case["pos"], case["glue"], summ, tuple(sorted(set(b[1] for b in bad)))))
-    for b in bad:
-      rep.violation(key_of(case, inst, b), "%s side, %s %s=%s placed %s (%s): %s" %
-                    ("controller" if side == "ctl" else "switch", inst.name, case["field"], case["val"], case["pos"],
-                     "one recv" if case["glue"] else "separate recvs", b[4]), case)
+    rep.outcome((side, msg_class(case, inst), fc, case["pos"], case["glue"], summ, tuple(sorted(k for k, _ in bad))))
+    for key, text in bad:
+      rep.violation(key, "%s side, %s %s=%s%s placed %s (%s): %s" %
+                    ("controller" if side == "ctl" else "switch", inst.name, case["field"], case["val"],
+                     "+EOF" if case["eof"] else "", case["pos"], "one recv" if case["glue"] else "separate recvs", text), case)
     if not bad and rep.evaluations % 400 == 1:
       rep.sample(dict(case=case, hostile_deliveries=[d["cls"] for d in w.deliv[HOSTILE]], errors_sent=len(w.errs[HOSTILE]),
                       hostile_closed=w.closed[HOSTILE], sibling_deliveries=[len(w.deliv[0]), len(w.deliv[2])]))
@@ -746,16 +771,14 @@ def run (cfg):
   insts = R.catalogue()
   quick = cfg.quick
   rep = Report(PID, "model_checking")
-  sides = ("ctl", "sw")
-  items = []
-  for side in sides:
+  cases = []
+  for side in ("ctl", "sw"):
     for ii, inst in enumerate(insts):
       for group in ("len", "type", "misc", "trunc"):
-        items.append((side, ii, group, quick))
-  if cfg.only:
-    items = [it for it in items if cfg.only in (it[0], insts[it[1]].name, it[2], "%s/%s" % (it[0], insts[it[1]].name))]
-  # big items first (better packing); pmap rotates by seed itself
-  for r in pmap(_worker, items, cfg.workers, seed=cfg.seed):
+        if cfg.only and cfg.only not in (side, inst.name, group, "%s/%s" % (side, inst.name)): continue
+        cases.extend(cases_for(side, ii, inst, group, quick))
+  # round-robin slices: every slice gets the same mix of cheap and expensive cases
+  for r in pmap(_worker, split(cases, cfg.workers * 6), cfg.workers, seed=cfg.seed):
     rep.merge(r)
   rep.state_count = rep.evaluations
   rep.rule = ("for each side (controller: real OpenFlow_01_Task.run over a fake socket module; switch: real RecocoIOLoop.run "
@@ -789,6 +812,6 @@ def replay (cfg, data):
   lines.append("closed: %r  loop: %s  tripped: %s  selecting: %r" % (w.closed, w.dead or "alive", w.tripped, w.final_sel))
   lines.append("sibling deliveries: %r of %r" % ([len(w.deliv[0]), len(w.deliv[2])], [len(w.pushed[0]), len(w.pushed[2])]))
   lines.append("exceptions logged by pox: %r" % (sorted(set(w.logged())),))
-  for b in bad:
-    lines.append("VIOLATED %s: %s" % (key_of(case, inst, b), b[4]))
+  for key, text in bad:
+    lines.append("VIOLATED %s: %s" % (key, text))
   return bool(bad), "\n".join(lines)
